@@ -32,7 +32,8 @@
 (* are (were): "F27" two spellings of one path allowed at the same time      *)
 (* (known finding), "F34" the order of initial results and pending updates of   *)
 (* a SETPARAMETERS before its repair, "F3" the filter-change code before its *)
-(* repair, "noflush" the                                                     *)
+(* repair, "norecurse" a removal that leaves the children behind, "noflush"  *)
+(* the                                                                       *)
 (* flush-before-remove rule dropped, "nofixup" no removal when a payload     *)
 (* change moves a node out of the filters.                                   *)
 (***************************************************************************)
@@ -113,7 +114,7 @@ Modify(z, actor, p, v, quiet) ==           \* DataNode::SetData
 RECURSIVE RemoveSub(_, _, _, _), RemoveAll(_, _, _, _)
 RemoveSub(z, actor, p, quiet) ==           \* DataNode::RemoveChild(recurse): children first, then the notification, then the node
     LET kids == {c \in DOMAIN z.tree : Len(c) = Len(p) + 1 /\ IsPrefix(p, c)}
-        z1 == RemoveAll(z, actor, SeqOf(kids), quiet)
+        z1 == IF "norecurse" \in Deviations THEN z ELSE RemoveAll(z, actor, SeqOf(kids), quiet)
         z2 == IF quiet THEN z1 ELSE Notify(z1, actor, p, z1.tree[p], z1.tree[p], TRUE)
     IN [z2 EXCEPT !.tree = Restrict(@, DOMAIN @ \ {p}), !.refs = Restrict(@, DOMAIN @ \ {p})]
 RemoveAll(z, actor, ps, quiet) == IF ps = <<>> THEN z ELSE RemoveAll(RemoveSub(z, actor, Head(ps), quiet), actor, Tail(ps), quiet)
